@@ -234,6 +234,9 @@ def run(case):
     for v in inner:
         one("add_start", {"additional_starts": [v]}, "int", starts=[v])
         one("add_end", {"additional_ends": [v]}, "float", ends=[v])
+        one("add_start_and_end", {"additional_starts": [v], "additional_ends": [v]}, "int", starts=[v], ends=[v])
+    for v, w in itertools.permutations(inner, 2):
+        one("add_start_end_pair", {"additional_starts": [v], "additional_ends": [w]}, "int", starts=[v], ends=[w])
     if is_dag:
         for lam in (0.5, 2):
             one("lambda", {"sparsity_lambda": lam}, "int", lam=lam)
